@@ -42,6 +42,7 @@ IStep(op) ==
     [] op.op = "BIat" -> BIat(op.b, op.enable) /\ obs' = [k |-> "other"]
     [] op.op = "BOffset" -> BOffset(op.b, op.claim, op.secs, IF op.claim \in {"exp", "nbf"} THEN 0 ELSE 1) /\ obs' = [k |-> "other"]
     [] op.op = "BMap" -> BMap(op.b, op.k, op.which, op.v) /\ obs' = [k |-> "other"]
+    [] op.op = "Forge" -> Forge(op.slot, op.tok) /\ obs' = [k |-> "other"]
     [] op.op = "CErrClear" -> CErrClear(op.c) /\ obs' = [k |-> "other"]
     [] op.op = "BErrClear" -> BErrClear(op.b) /\ obs' = [k |-> "other"]
     [] op.op = "Verify" ->
